@@ -8,6 +8,15 @@ use parity_reconstruct::lfdbt::LfdbtParity;
 use parity_reconstruct::ParityMatrix;
 use std::io::BufRead;
 
+fn stale<A: bitvec::view::BitViewSized>(buf: &mut BitArray<A>, m: u32) {
+    let len = buf.len();
+    for i in [m.saturating_sub(1) as usize, m as usize, m as usize + 9] {
+        if i < len {
+            buf.set(i, true);
+        }
+    }
+}
+
 pub fn run() {
     for line in std::io::stdin().lock().lines() {
         let line = line.unwrap();
@@ -17,14 +26,18 @@ pub fn run() {
             continue;
         }
         let (m, n) = (t[0] as u32, t[1] as u32);
+        // the row buffer is handed over dirty (as the single-erasure updaters do with their one scratch mask): the generator must
+        // clear it; a stale bit just below M and two beyond M would show in the printed mask
         let a = guard(|| {
             let mut buf = BitArray::ZERO;
+            stale(&mut buf, m);
             flash_algo_new::fragmentation::get_parity_matrix_row(n, m, &mut buf);
             num_hex(buf.as_raw_slice())
         })
         .unwrap_or_else(|_| "panic".into());
         let b = guard(|| {
             let mut buf = BitArray::ZERO;
+            stale(&mut buf, m);
             original_flash_algo::fragmentation::get_parity_matrix_row(n, m, &mut buf);
             num_hex(buf.as_raw_slice())
         })
